@@ -30,13 +30,23 @@ def is_string_ty(t):
 
 
 def data_path_functions(P):
-    """Functions reachable from clean() that hand a String back (the path of the cleaned text)."""
+    """Functions that hand the cleaned text back: clean() and, transitively, every crate function with a String in its
+    return type that is called from a function already on the path (the evaluator's scratch strings are not on it:
+    is_removal returns bool)."""
     root = P.fn("chiritori::clean")
-    out = []
-    for p in P.reachable([root["def_path"]]):
-        b = P.bodies[p]
-        if "std::string::String" in (b.get("ret_ty") or "") and not (b.get("impl_of") or {}).get("derived"):
-            out.append(b)
+    out = [root]
+    seen = {root["def_path"]}
+    work = [root]
+    while work:
+        b = work.pop()
+        for c, node in P.callees(b):
+            cb = P.bodies.get(c)
+            if cb is None or c in seen or (cb.get("impl_of") or {}).get("derived"):
+                continue
+            if "std::string::String" in (cb.get("ret_ty") or ""):
+                seen.add(c)
+                out.append(cb)
+                work.append(cb)
     return out
 
 
